@@ -125,7 +125,7 @@ def bool_(x):
 def int_(x):
     try:
         return int(x)
-    except (ValueError, TypeError):
+    except (ValueError, TypeError, OverflowError):
         return None
 
 
